@@ -29,6 +29,7 @@ type Env struct {
 	inSpec   string
 	atBlock  *ssa.BasicBlock
 	atIdx    int
+	argVals  map[string]ssa.Value // at a call site: contract parameter name -> actual argument
 }
 
 func (vc *VC) newEnv(st, old *State) *Env {
@@ -868,6 +869,62 @@ func (vc *VC) trCall(x *ECall, env *Env) TV {
 			return vc.errTV("ifaceloc of %s", a.T)
 		}
 		return TV{T: types.Typ[types.UnsafePointer], S: sx("iptr", a.S)}
+	case "callres":
+		// callres(f, a...): the result of calling the function-valued argument f (a closure literal of
+		// the calling function) on a..., given by the closure's own (separately proved) contract
+		// "ensures result == E"
+		if len(x.Args) < 1 {
+			return vc.errTV("callres needs a function argument")
+		}
+		id, _ := x.Args[0].(*EIdent)
+		if id == nil || env.argVals == nil || env.argVals[id.Name] == nil {
+			return vc.errTV("callres: %s is not a parameter bound to an argument here", x.Args[0])
+		}
+		av := env.argVals[id.Name]
+		for {
+			if ct, ok := av.(*ssa.ChangeType); ok {
+				av = ct.X
+				continue
+			}
+			break
+		}
+		mc, _ := av.(*ssa.MakeClosure)
+		if mc == nil {
+			return vc.errTV("callres: argument %s is not a closure literal", id.Name)
+		}
+		cfn := mc.Fn.(*ssa.Function)
+		top := cfn
+		for top.Parent() != nil {
+			top = top.Parent()
+		}
+		cfc := vc.lookupContract(top.Pkg.Pkg.Path() + "." + funcRelName(cfn))
+		if cfc == nil {
+			return vc.errTV("callres: closure %s has no contract", funcRelName(cfn))
+		}
+		var body Expr
+		for _, e := range cfc.Ensures {
+			if b, ok := e.E.(*EBin); ok && b.Op == "==" {
+				if l, ok := b.X.(*EIdent); ok && l.Name == "result" {
+					body = b.Y
+				}
+			}
+		}
+		if body == nil {
+			return vc.errTV("callres: closure %s has no clause 'ensures result == E'", funcRelName(cfn))
+		}
+		cenv := &Env{vars: map[string]TV{}, st: env.st, old: env.st, loopVals: map[*ssa.Phi]TV{}, pkg: top.Pkg.Pkg, bound: env.bound, pats: env.pats}
+		for i, p := range cfn.Params {
+			if i+1 < len(x.Args) {
+				cenv.vars[p.Name()] = vc.coerceInt(vc.tr(x.Args[i+1], env), p.Type())
+			}
+		}
+		for i, fv := range cfn.FreeVars {
+			if i < len(mc.Bindings) {
+				cenv.vars[fv.Name()] = vc.val(mc.Bindings[i])
+			}
+		}
+		vc.closureSpecsUsed[funcRelName(cfn)] = true
+		return vc.tr(body, cenv)
 	case "deref":
 		a := vc.tr(x.Args[0], env)
 		pt, ok := a.T.Underlying().(*types.Pointer)
